@@ -3,7 +3,7 @@
 cd /verif
 out=/verif/soak.log
 : > $out
-for seed in 2 3 4 5 6 7; do
+for seed in ${SOAK_SEEDS:-2 3 4 5 6 7}; do
   for i in 01 02 03 04 05 06 07 08 09 10 11 12 13 14 15 16 17 18 19 20; do
     VERIF_SEED=$seed ./check C$i quick > /tmp/soak_one.log 2>&1; rc=$?
     echo "quick seed=$seed C$i rc=$rc $(grep -v '^KNOWN-FINDING' /tmp/soak_one.log | tail -1 | cut -c1-160)" >> $out
